@@ -949,6 +949,63 @@ def ob_locate_dense(et, organised):
     return Verdict(DISCHARGED, backend="native gmsh mesh", detail=f"{r['nq']} points, worst {max(r['worst_single'], r['worst_batch']):.1e}")
 
 
+def ob_locate_warped(et):
+    """general hexahedra / prisms whose faces are NOT planar (interior nodes of a structured box mesh moved at random; the box is still tiled exactly and the Jacobians stay
+    positive): every interior point is located and a linear field is reproduced."""
+    from EasyFEA import ElemType
+    from EasyFEA.Geoms import Domain, Point
+    rng = np.random.default_rng(0)
+    mesh = Domain(Point(0, 0), Point(1, 1), 0.25).Mesh_Extrude([], [0, 0, 1], [4], ElemType[et], isOrganised=True)
+    coord = np.asarray(mesh.coord).copy()
+    inner = np.all((coord > 1e-9) & (coord < 1 - 1e-9), axis=1)
+    coord[inner] += rng.uniform(-0.05, 0.05, (int(inner.sum()), 3))
+    mesh.coord = coord
+    if abs(mesh.volume - 1.0) > 1e-12:
+        raise Unsupported("the warped mesh does not tile the unit cube")
+    pts = rng.uniform(0.02, 0.98, (1500, 3))
+    f = lambda P_: 1 + P_[:, 0] + 2 * P_[:, 1] - 3 * P_[:, 2]
+    val = np.ravel(mesh.Evaluate_dofsValues_at_coordinates(pts, f(coord)))
+    err = np.abs(val - f(pts))
+    nbad = int((err > 1e-5).sum())
+    if nbad:
+        k = int(np.argmax(err))
+        raise Refuted(f"{et} mesh with non-planar element faces: {nbad} of {len(pts)} interior points are wrong for a linear field ({int((val[err > 1e-5] == 0).sum())} evaluated as exactly 0, i.e. "
+                      f"found in no element); e.g. at {np.round(pts[k], 4).tolist()}: {val[k]:.6g} instead of {f(pts[k:k+1])[0]:.6g}", cex=dict(elemType=et, point=pts[k].tolist()), signature=f"locate:warped:{et}",
+                      replay=dict(confirmed=True, wrong=nbad))
+    return Verdict(DISCHARGED, backend="native", detail=f"{len(pts)} points")
+
+
+def ob_normals2d_tilted(et):
+    """boundary segments of a plane mesh rotated out of the (x, y) plane: their normals lie in the plane of the surface, close the contour (the integral of the normal vanishes)
+    and the flux of the position vector gives +-2 x area, as they do before the rotation."""
+    from EasyFEA import ElemType
+    from EasyFEA.FEM._utils import MatrixType
+    from EasyFEA.Geoms import Points, Point
+    mesh = Points([Point(0, 0), Point(3, 0.5), Point(3.5, 2), Point(1, 2.5)], 0.8).Mesh_2D([], ElemType[et])
+    area = float(mesh.area)
+
+    def contour(m):
+        tot, flux, inplane = np.zeros(3), 0.0, 0.0
+        nsurf = np.asarray(m.groupElem.Get_normals_e_pg(MatrixType.mass)).reshape(-1, 3)[0]
+        for g in m.Get_list_groupElem(1):
+            nrm = np.asarray(g.Get_normals_e_pg(MatrixType.mass))
+            wJ = np.asarray(g.Get_weightedJacobian_e_pg(MatrixType.mass))
+            xg = np.asarray(g.Get_GaussCoordinates_e_pg(MatrixType.mass))
+            tot += np.einsum("ep,epi->i", wJ, nrm)
+            flux += float(np.einsum("ep,epi,epi->", wJ, nrm, xg))
+            inplane = max(inplane, float(np.abs(nrm.reshape(-1, 3) @ nsurf).max()))
+        return tot, flux, inplane
+    t0, f0, _ = contour(mesh)
+    if np.abs(t0).max() > 1e-10 or abs(abs(f0) - 2 * area) > 1e-9:
+        raise Unsupported("contour normals of the untilted mesh do not close")
+    mesh.Rotate(40.0, (0, 0, 0), (1, 0.3, 0))
+    t1, f1, ip = contour(mesh)
+    if np.abs(t1).max() > 1e-9 or abs(abs(f1) - 2 * area) > 1e-8 or ip > 1e-9:
+        raise Refuted(f"{et} plane mesh rotated out of the (x, y) plane: integral of the boundary normal {np.round(t1, 5).tolist()} (expected 0), |flux| / 2 = {abs(f1) / 2:.5f} (area {area:.5f}), largest component of a "
+                      f"boundary normal along the surface normal {ip:.3f} (expected 0)", cex=dict(elemType=et), signature="normals2d:tilted", replay=dict(confirmed=True, integral=t1.tolist(), flux=f1, out_of_plane=ip))
+    return Verdict(DISCHARGED, backend="native")
+
+
 def ob_locate_distorted(et):
     """Hand-built non-parallelogram QUAD / planar-faced non-parallelepiped HEXA patches: polynomial reproduction at images of reference points."""
     rng = np.random.default_rng(5)
@@ -1146,6 +1203,11 @@ def build(tier, seed):
         obs.append(Ob(f"C08.locate.dense.{et}.{'structured' if organised else 'unstructured'}", ob_locate_dense, (et, organised), "X", (f"{GE}::_GroupElem._Get_nearby_elements", f"{GE}::_GroupElem._Get_Mapping"),
                       bound="one box mesh (64-800 elements), up to 350 special query points + 800 random interior points", timeout=1200,
                       clause="points on edges / diagonals / element centres, queried singly and in a batch, are located and a linear field is reproduced (1e-6)"))
+    for et in ("HEXA8", "PRISM6"):
+        obs.append(Ob(f"C08.locate.warped.{et}", ob_locate_warped, (et,), "X", (f"{GE}::_GroupElem.Get_pointsInElem",), bound="one 64 / 128-element box mesh with perturbed interior nodes, 1500 points", timeout=1200,
+                      clause="points inside general elements with non-planar faces are located; a linear field is reproduced"))
+    obs.append(Ob("C08.gmsh.normals2d.tilted", ob_normals2d_tilted, ("TRI3",), "X", (f"{GE}::_GroupElem.Get_normals_e_pg",), bound="one quadrilateral domain, one rotation", timeout=600,
+                  clause="boundary normals of a plane mesh moved out of the (x, y) plane stay in the plane of the surface and close the contour"))
     for et in ("QUAD4", "QUAD8", "QUAD9", "HEXA8") + (("HEXA20", "HEXA27") if thorough else ()):
         obs.append(Ob(f"C08.locate.distorted.{et}", ob_locate_distorted, (et,), "X", (f"{GE}::_GroupElem._Get_Mapping",), bound="2-element distorted patch, both orientations",
                       clause="inverse isoparametric map on non-parallelogram elements", timeout=1200))
